@@ -130,11 +130,29 @@ func startAsync(c *vlib.Case, n int, maxPacket int, seed int64) (*chanNet, []*as
 }
 
 func TestC03Async(t *testing.T) {
-	vlib.SetRule("C03", "TestC03Async", "3-5 real gossip.New instances (real scheduler goroutines, random peer selection, shuffled digests, failure detector, periodic compaction and expiry) over a channel network inside the virtual-time bubble; a drawn write/delete/compaction workload runs for 20-60 virtual seconds under 10-40 % loss and 0-20 % duplication, then writes stop and loss ends; oracle: within 10 virtual minutes every node's view of every node equals that node's own state (keys, values, deletion markers, version); every case is non-trivial")
+	vlib.SetRule("C03", "TestC03Async", "3-5 real gossip.New instances (real scheduler goroutines, random peer selection, shuffled digests, failure detector, periodic compaction and expiry) over a channel network inside the virtual-time bubble; a drawn write/delete/compaction workload (in a third of the cases uniform entries with the packet limit set to the exact size of a delta of 4-7 of them, so that datagrams use the whole limit to the byte) runs for 20-60 virtual seconds under 10-40 % loss and 0-20 % duplication, then writes stop and loss ends; oracle: within 10 virtual minutes every node's view of every node equals that node's own state (keys, values, deletion markers, version); every case is non-trivial")
 	vlib.RunSync(t, "C03", func(c *vlib.Case) {
 		N := c.Int("nodes", 3, 5)
 		mv := minViablePacket("n0", "127.0.0.1:7000")
 		maxPacket := []int{1400, 512, mv + 60, mv + 5}[c.Pick("maxPacket", 4)]
+		// exact-fit mode: the packet limit is the exact size of a delta carrying m
+		// uniform entries, so the state of n0 travels in datagrams that use the whole
+		// limit, to the byte (senders are entitled to)
+		exactFit := c.Chance("exactFit", 1, 3)
+		uniform := func(i int) (string, string) { return fmt.Sprintf("u%02d", i), "vvvvvvvv" }
+		if exactFit {
+			var es []gossip.Entry
+			for i, m := 0, c.Int("entriesPerPacket", 4, 7); i < m; i++ {
+				k, v := uniform(i)
+				es = append(es, gossip.Entry{Key: k, Value: v, Version: uint64(i + 1)})
+			}
+			b, err := gossip.VerifEncodeDelta("n0", "127.0.0.1:7000", gossip.VerifDelta{{ID: "n0", Addr: "127.0.0.1:7000", Entries: es}}, 1<<20)
+			if err != nil {
+				c.Harnessf("encode: %v", err)
+			}
+			maxPacket = len(b)
+			c.Class("exact-fit-packets")
+		}
 		nw, nodes := startAsync(c, N, maxPacket, int64(c.Int("netSeed", 1, 1<<30)))
 		defer func() {
 			for _, n := range nodes {
@@ -147,13 +165,29 @@ func TestC03Async(t *testing.T) {
 		nw.loss, nw.dup = c.Int("lossPercent", 10, 40), c.Int("dupPercent", 0, 20)
 		nw.mu.Unlock()
 		c.Header["nodes"], c.Header["max_packet"], c.Header["loss"] = N, maxPacket, nw.loss
+		if exactFit {
+			for i := 0; i < 30; i++ {
+				k, v := uniform(i)
+				nodes[0].g.UpsertLocal(k, v)
+			}
+		}
 		ops := c.Int("ops", 10, 120)
 		for i := 0; i < ops; i++ {
 			n := nodes[c.Pick("node", N)]
 			switch c.Weighted("op", []string{"upsert", "delete", "compact", "wait"}, []int{8, 3, 1, 4}) {
 			case "upsert":
+				if exactFit {
+					k, v := uniform(c.Int("u", 0, 40))
+					n.g.UpsertLocal(k, v)
+					break
+				}
 				n.g.UpsertLocal(simKeys[c.Pick("key", len(simKeys))]+fmt.Sprint(c.Int("k", 0, 6)), s2(c))
 			case "delete":
+				if exactFit {
+					k, _ := uniform(c.Int("u", 0, 40))
+					n.g.DeleteLocal(k)
+					break
+				}
 				n.g.DeleteLocal(simKeys[c.Pick("key", len(simKeys))] + fmt.Sprint(c.Int("k", 0, 6)))
 			case "compact":
 				n.g.VerifCompactLocal(c.Int("threshold", 1, 3))
